@@ -8,7 +8,15 @@ Correspondence (real `QuantizedValue.from_float_value` / `to_float`, eager, unde
        difference is `boundary` only if the exact ratio x/bucket is within N*2^-22 of a half-integer), bucket size
        within 1.5*2^-23 relative of the exact max|x|/N.  bfloat16: exact (correctly rounded) against the Rat model of
        round-to-nearest-even to 8 bits; float32: bitwise passthrough.
-Search oracle (no reference to the model): |to_float - x| <= (1/2 + 3N*2^-24) * max|x|/N per column, no stored integer
+  K-iii FLOAT32-EXACT  the same tensors against the model in rounded arithmetic (`quantizeFl` with float32 rounding after
+       every operation, run on exact rationals): every column's bucket size, stored integers and dequantized values must
+       equal, bit for bit, one of the four variants (bucket / ratio divided by a rounded division or as a*fl(1/b), which
+       is what XLA-CPU emits for constant or broadcast divisors); columns in the K1/K2/K3 regimes are skipped.
+  K-iv call sites  real `distributed_shampoo` / `sm3` optimizers are run eagerly with `QuantizedValue.from_float_value`
+       wrapped by a recorder: every call (argument, dtype, extract_diagonal, calling function) goes through the same
+       oracle and model comparison, and the requested dtype must be the one `call_site_dtype` of the model predicts.
+Search oracle (no reference to the model): |to_float - x| <= (1/2 + (3N+2)*2^-24) * max|x|/N per column (theorem
+roundtrip_fp_xla; 3N under one rounding per operation, roundtrip_fp), no stored integer
 outside [-N, N] (in particular never the most negative value), zeros exact, extracted diagonal exact, re-quantizing
 reproduces the integers.
 
@@ -100,7 +108,7 @@ QUICK_SHAPES = [[1], [2], [3], [7], [16], [33],
                 [1, 1, 1], [2, 3, 4], [4, 3, 2], [3, 1, 5], [5, 4, 1], [2, 2, 2], [6, 5, 3]]
 SQUARE = [[1, 1], [2, 2], [3, 3], [4, 4], [8, 8], [12, 12]]
 FLOAT_KINDS = ["normal", "colscale", "loguniform", "const", "zeros", "overflow", "fltmax", "k1", "k2", "tinynormal",
-               "nearhalf", "ints", "allexp"]
+               "nearhalf", "ints", "allexp", "wrapsearch"]
 
 
 def clip32(x):
@@ -201,6 +209,16 @@ def gen_float(rng, kind, shape, N, ed):
         x = k * s[None, :] * (1 + rng.integers(-2, 3, size=rc) * 2.0 ** -23)
         for c in range(cols):
             x[int(rng.integers(0, rows)), c] = rng.choice([-1.0, 1.0]) * N * s[c]
+    elif kind == "wrapsearch":
+        # the largest entry's computed ratio is N(1+d2)/(1+d1): random significands of the column maximum, the other
+        # entries just below it or at a half-integer multiple of the bucket
+        mant = 1.0 + rng.integers(0, 2 ** 23, size=cols) / 2.0 ** 23
+        s = mant * 2.0 ** rng.integers(-100, 100, size=cols)
+        x = rng.choice([-1.0, 1.0], size=rc) * s[None, :] * (1.0 - rng.integers(0, 4, size=rc) * 2.0 ** -24 * rng.integers(0, 2, size=rc))
+        half = rng.random(rc) < 0.3
+        x = np.where(half, rng.choice([-1.0, 1.0], size=rc) * (N - 0.5) / N * s[None, :] * (1 + rng.integers(-2, 3, size=rc) * 2.0 ** -23), x)
+        for c in range(cols):
+            x[int(rng.integers(0, rows)), c] = rng.choice([-1.0, 1.0]) * s[c]
     elif kind == "ints":
         x = rng.integers(-9, 10, size=rc).astype(np.float64)
     else:
@@ -274,8 +292,16 @@ def gen_cases(tier, seed, NB):
                     others = [m for jj, m in enumerate(mats) if jj != j]
                     cases.append(mk_case("dyadic" if k == "dyadic" else "float", dtype, shape, True, "vmap", mats[j], k,
                                          batch_with=others))
-    # bfloat16 / float32 passthrough
+        # many column maxima at once: does the computed ratio of the largest entry ever round to N+1 ?
+        for mode in ("eager", "jit"):
+            for shape in ([2, 257], [1, 128], [3, 64, 2]):
+                for _ in range(1 if tier == "quick" else 6):
+                    cases.append(mk_case("float", dtype, shape, False, mode, gen_float(rng, "wrapsearch", shape, N, False), "wrapsearch"))
+    # bfloat16 / float32 passthrough; extract_diagonal is accepted and ignored for these dtypes
     for dtype in ("bfloat16", "float32"):
+        for shape in squares[:4]:
+            for mode in ("eager", "jit"):
+                cases.append(mk_case("cast", dtype, shape, True, mode, gen_float(rng, "normal", shape, 127, False), "normal"))
         for shape in shapes[:: (2 if tier == "quick" else 1)]:
             for mode in ("eager", "jit"):
                 for kind in ["normal", "allexp", "loguniform", "zeros", "overflow", "fltmax", "k1", "ints", "nearhalf"]:
@@ -382,7 +408,7 @@ def oracle_int(c, obs, N):
         P = X
     m = np.abs(P).max(axis=0)      # exact column max-abs
     bt = m / N
-    slack = (0.5 + 3.0 * N * 2.0 ** -24) * bt
+    slack = (0.5 + (3.0 * N + 2.0) * 2.0 ** -24) * bt
     with np.errstate(invalid="ignore", over="ignore"):
         err = np.abs(Y - X)
     sub_entry = (np.abs(P) > 0) & (np.abs(P) < TINY)
@@ -408,7 +434,7 @@ def oracle_int(c, obs, N):
     if c["ed"]:
         bad[np.arange(rows), np.arange(rows)] = False
     for i, j in zip(*np.nonzero(bad)):
-        fails.append((classify(i, j), f"round-trip error {err[i, j]:.6g} > (1/2+3N*2^-24)*bucket = {slack[j]:.6g} at row {i} column {j} "
+        fails.append((classify(i, j), f"round-trip error {err[i, j]:.6g} > (1/2+(3N+2)*2^-24)*bucket = {slack[j]:.6g} at row {i} column {j} "
                       f"(x={X[i, j]!r}, to_float={Y[i, j]!r}, q={q[i, j]}, column max|x|={m[j]!r}, N={N})"))
     # 2. no wrap
     for i, j in zip(*np.nonzero((q == minint) | (np.abs(q) > N))):
@@ -570,6 +596,53 @@ def compare_int(ctx, c, obs, rep, N):
             ctx.disagree("float.diag", slim(c), obs["diag"][:16], rep["diag"][:16])
 
 
+def compare_fl32(ctx, c, obs, rep, N):
+    """FLOAT32-EXACT: every column of the implementation equals one division variant of the rounded-arithmetic model."""
+    import numpy as np
+    if "error" in rep:
+        raise kit.InfraError(f"driver error: {rep['error']}")
+    shape = c["shape"]
+    rows, cols = shape[0], prod(shape[1:])
+    x32 = unhex(c["data"], (rows, cols))
+    X = x32.astype(np.float64)
+    P = X - np.diag(np.diag(X)) if c["ed"] else X
+    m = np.abs(P).max(axis=0)
+    k1_col = (m > 0) & (m <= N * TINY)          # '<=': m*fl(1/N) may land just below the normal range
+    sub_col = ((np.abs(X) > 0) & (np.abs(X) < TINY)).any(axis=0)   # incl. a subnormal extracted diagonal (K4)
+    iq = np.array(obs["q"], dtype=np.int64).reshape(rows, cols)
+    ib = [f32_fraction(v) for v in unhex(obs["bucket"])]
+    iy = unhex(obs["deq"], (rows, cols))
+    variants = {}
+    for k in ("00", "01", "10", "11"):
+        r = rep[k]
+        variants[k] = (np.array(r["q"], dtype=np.int64).reshape(rows, cols), [Fraction(t) for t in r["bucket"]],
+                       r["deq"], bool(r["overflow"]))
+    if any(v[3] for v in variants.values()):
+        ctx.corr("fl32.skipped_overflow_regime(K3)", True, cols)
+        return
+    for j in range(cols):
+        if k1_col[j] or sub_col[j]:
+            ctx.corr("fl32.skipped_flush_regime(K1/K2)", True)
+            continue
+        col_y = None
+        matched = []
+        for k, (mq, mb, md, _ov) in variants.items():
+            if mb[j] != ib[j] or not np.array_equal(mq[:, j], iq[:, j]):
+                continue
+            if col_y is None:
+                col_y = [f32_fraction(v) if np.isfinite(v) else None for v in iy[:, j]]
+            if [Fraction(md[i * cols + j]) for i in range(rows)] == col_y:
+                matched.append(k)
+        ok = bool(matched)
+        ctx.corr("fl32.column", ok)
+        if ok:
+            ctx.dist("fl32_variant:" + ("any" if len(matched) == 4 else "+".join(matched)))
+        else:
+            ctx.disagree("fl32.column", slim(c), {"q": iq[:, j].tolist()[:32], "bucket": str(ib[j]), "deq": [float(v) for v in iy[:, j]][:32]},
+                         {k: {"q": variants[k][0][:, j].tolist()[:32], "bucket": str(variants[k][1][j])} for k in ("00", "11")},
+                         f"column {j}: no division variant of the float32 model reproduces bucket, integers and to_float")
+
+
 def compare_cast(ctx, c, obs, rep):
     if c["dtype"] == "float32":
         ok = obs["deq"] == c["data"]
@@ -629,9 +702,13 @@ def execute(ctx, cases, NB):
     for pos, k in enumerate(order):
         flat[k] = flat_sorted[pos]
     reqs = [case_request(c, NB.get(c["dtype"], 1)) for c in cases]
-    replies = ctx.driver(reqs)
+    fl_idx = [k for k, c in enumerate(cases) if c["dtype"] in INT_BITS]
+    reqs_fl = [dict(case_request(cases[k], NB[cases[k]["dtype"]]), op="quantize_fl32") for k in fl_idx]
+    all_replies = ctx.driver(reqs + reqs_fl)
+    replies = all_replies[:len(reqs)]
+    fl_reply = dict(zip(fl_idx, all_replies[len(reqs):]))
     import hashlib
-    for c, obs, rep in zip(cases, flat, replies):
+    for kk, (c, obs, rep) in enumerate(zip(cases, flat, replies)):
         ctx.evaluated()
         ctx.cov["search_evaluations"] += 1
         ctx.dist(f"{c['stream']}:{c['dtype']}:{c['mode']}:ed={int(c['ed'])}")
@@ -653,6 +730,7 @@ def execute(ctx, cases, NB):
                 ctx.nontrivial(key)
             report(ctx, c, fails)
             compare_int(ctx, c, obs, rep, N)
+            compare_fl32(ctx, c, obs, fl_reply[kk], N)
         else:
             fails, info = oracle_cast(c, obs)
             if info["inf_overflow"]:
@@ -679,7 +757,13 @@ def const_stage(ctx):
             if int(v) > hi:
                 ctx.const_fail(f"num_buckets[{dt}]", f"{v!r} > {hi}: [-N, N] no longer fits {dt} without using the most negative value "
                                f"(no_wrap gives |q| <= N only)")
-    ctx.cov["constants"] = {"num_buckets": {k: nb[k] for k in nb}}
+        # hypotheses of roundtrip_fp (N >= 2) and of roundtrip_fp_xla / no_wrap_fp / max_hits_N_fp (N*u <= 1/16) at u = 2^-24
+        if NB[dt] < 2:
+            ctx.const_fail(f"num_buckets[{dt}]", f"{v!r} < 2: roundtrip_fp assumes N >= 2")
+        if NB[dt] * 16 > 2 ** 24:
+            ctx.const_fail(f"num_buckets[{dt}]", f"{v!r}: N * 2^-24 > 1/16, outside the hypothesis of roundtrip_fp_xla / no_wrap_fp")
+    ctx.cov["constants"] = {"num_buckets": {k: nb[k] for k in nb}, "unit_roundoff": "2^-24 (float32 inputs)",
+                            "oracle_slack_in_buckets": {k: 0.5 + (3 * NB[k] + 2) * 2.0 ** -24 for k in NB}}
     return NB
 
 
@@ -693,7 +777,9 @@ def run(ctx):
         "EXACT-DYADIC stream: inputs k*2^e with k integer or half-integer, max|k|=N, 2^e normal: implementation == Rat model bit for bit",
         "float stream: stored integers == Rat model except +-1 where the exact ratio is within N*2^-22 of a half-integer (counted as boundary); "
         "bucket_size within 1.5*2^-23 relative of exact max|x|/N (the jit path multiplies by fl(1/N))",
-        "oracle slack (1/2 + 3N*2^-24)*bucket, evaluated in float64 from the exact column max-abs",
+        "oracle slack (1/2 + (3N+2)*2^-24)*bucket (theorem roundtrip_fp_xla with u = 2^-24), evaluated in float64 from the exact column max-abs",
+        "FLOAT32-EXACT stream: bit equality with one of the four division variants of the rounded-arithmetic model; a column is skipped when it "
+        "is in the K1 regime, has a subnormal entry (K2), or the model flags an overflow (K3 regime)",
         "bfloat16: correctly rounded (ties to even, gradual underflow) against the Rat model; finite inputs above the bfloat16 range round to inf "
         "(IEEE; counted, the property states no bound for them); extract_diagonal is ignored by the code for bfloat16/float32",
         "diagonal / zero reproduction is compared by value (-0.0 == 0.0)",
